@@ -58,167 +58,7 @@ func rulesC09(c *Ctx) {
 			fmt.Sprintf("none of the %d call sites reachable in the module from %s is a randomness/time/environment/file leaf", n, key), strings.Join(bad, "; "))
 	}
 
-	// ---- R2
-	load := c.fn("R2", "mint.LoadMint")
-	rot := c.fn("R2", "mint.(*Mint).RotateKeyset")
-	isMaster := func(e *Ex, seedOK func(*Ex) bool) bool {
-		return isCallSuffix(e, "hdkeychain.NewMaster") && e.Idx == 0 && seedOK(arg(e, 0))
-	}
-	rowOK := func(row *Ex, k *Ex, seedOK func(*Ex) bool) (bool, string) {
-		fs := fieldsOfWith(row)
-		want := map[string]string{"Id": k.String() + ".Id", "Unit": k.String() + ".Unit", "DerivationPathIdx": k.String() + ".DerivationPathIdx", "InputFeePpk": k.String() + ".InputFeePpk"}
-		for f, w := range want {
-			if fs[f] == nil || fs[f].String() != w {
-				got := "<missing>"
-				if fs[f] != nil {
-					got = short(fs[f].String(), 100)
-				}
-				return false, "persisted " + f + " is " + got + ", expected the generated keyset's " + f
-			}
-		}
-		if fs["Active"] == nil || !(isConst(fs["Active"], "true") || fs["Active"].String() == k.String()+".Active") {
-			return false, "persisted Active is not true / the keyset's flag"
-		}
-		if fs["Seed"] == nil || !isCall(fs["Seed"], fnHexEncode) || !seedOK(arg(fs["Seed"], 0)) {
-			return false, "persisted Seed is not the hex of the seed in use"
-		}
-		return true, ""
-	}
-	if load != nil {
-		fk := c.P.FuncKey(load)
-		o := c.P.OriginsOf(load)
-		seedOK := func(e *Ex) bool {
-			for _, a := range e.Alts() {
-				if !(isCallSuffix(a, "hdkeychain.GenerateSeed") || isCallSuffix(a, ".GetSeed")) {
-					return false
-				}
-			}
-			return true
-		}
-		nFirst, nReload := 0, 0
-		for _, ci := range Calls(load) {
-			d := c.P.Describe(ci)
-			if d.Name != fnGenKeyset {
-				continue
-			}
-			args := make([]*Ex, len(d.Args))
-			for i, a := range d.Args {
-				args[i] = o.Of(a)
-			}
-			pos := c.P.InstrPos(ci)
-			if !isMaster(args[0], seedOK) {
-				R.Check("R2", fk, "master key from the stored/generated seed", pos, false, "keys are derived from the master key of the seed", short(args[0].String(), 160))
-				continue
-			}
-			if isConst(args[1], "0") {
-				nFirst++
-				ok := isConst(args[3], "true") && strings.HasSuffix(args[2].String(), ".InputFeePpk") && args[2].K == "field" && paramRoot(args[2]) != ""
-				R.Check("R2", fk, "first start: GenerateKeyset(master, 0, configured fee, active)", pos, ok, "the first keyset uses index 0, the configured fee and is active", short(args[2].String()+" / "+args[3].String(), 160))
-				// generated seed saved before use
-				saved := &Cond{Name: "seed read from storage, or generated seed saved", Match: func(ft *Fact, _ *Origins) bool {
-					if ft.Kind != "errnil" || !ft.Pos || ft.A.K != "call" {
-						return false
-					}
-					return (strings.HasSuffix(ft.A.S, ".GetSeed") && ft.A.Idx == 1) || (strings.HasSuffix(ft.A.S, ".SaveSeed") && isCallSuffix(arg(ft.A, 1), "hdkeychain.GenerateSeed"))
-				}}
-				okS, why := o.Requires(ci, saved)
-				R.Check("R2", fk, "seed persisted before keys are derived from it", pos, okS, "a freshly generated seed is saved before any key is derived", why)
-				// persisted row
-				k := o.Of(ci.(ssa.Value))
-				kv := &Ex{K: "call", S: k.S, Args: k.Args, Call: k.Call, Idx: 0}
-				for _, sc := range Calls(load) {
-					sd := c.P.Describe(sc)
-					if strings.HasSuffix(sd.Name, ".SaveKeyset") {
-						okR, whyR := rowOK(o.Of(sd.Args[0]), kv, seedOK)
-						R.Check("R2", fk, "first start: persisted row = generated keyset", c.P.InstrPos(sc), okR, "the row saved for the first keyset carries the generated id, unit, index, fee and the seed", whyR)
-						for _, r := range o.SuccessReturns() {
-							_ = r
-						}
-					}
-				}
-				continue
-			}
-			nReload++
-			row := "elem("
-			ok := strings.HasPrefix(args[1].String(), row) && strings.HasSuffix(args[1].String(), ".DerivationPathIdx") &&
-				strings.HasSuffix(args[2].String(), ".InputFeePpk") && strings.HasSuffix(args[3].String(), ".Active")
-			// all three from the same stored row of the keyset read
-			base := strings.TrimSuffix(args[1].String(), ".DerivationPathIdx")
-			ok = ok && args[2].String() == base+".InputFeePpk" && args[3].String() == base+".Active" && strings.Contains(base, ".GetKeysets#0(")
-			R.Check("R2", fk, "reload: GenerateKeyset(master, row.index, row.fee, row.active)", pos, ok, "every stored keyset is regenerated from its own stored index, fee and active flag",
-				short(args[1].String()+" / "+args[2].String()+" / "+args[3].String(), 240))
-		}
-		if nFirst == 0 || nReload == 0 {
-			R.Check("R2", fk, "first-start and reload generation present", c.P.Pos(load.Pos()), false, "start-up generates the first keyset or regenerates the stored ones", fmt.Sprintf("first=%d reload=%d", nFirst, nReload))
-		}
-	}
-	if rot != nil {
-		fk := c.P.FuncKey(rot)
-		o := c.P.OriginsOf(rot)
-		ak := c.activeKeysetField("R2")
-		recv := coreRecv(rot)
-		seedOK := func(e *Ex) bool { return isCallSuffix(e, ".GetSeed") && e.Idx == 0 }
-		var gen ssa.CallInstruction
-		for _, ci := range Calls(rot) {
-			if c.P.Describe(ci).Name == fnGenKeyset {
-				gen = ci
-			}
-		}
-		if gen == nil {
-			R.Check("R2", fk, "rotation generates the next keyset", c.P.Pos(rot.Pos()), false, "rotation derives a new keyset", "no call of "+fnGenKeyset)
-		} else {
-			d := c.P.Describe(gen)
-			a0, a1, a2, a3 := o.Of(d.Args[0]), o.Of(d.Args[1]), o.Of(d.Args[2]), o.Of(d.Args[3])
-			okIdx := a1.String() == "("+recv+"."+ak+".DerivationPathIdx + #1)"
-			R.Check("R2", fk, "rotation: index = active index + 1", c.P.InstrPos(gen), okIdx && isMaster(a0, seedOK), "the new keyset uses the next derivation index under the stored seed's master key", short(a1.String(), 120))
-			R.Check("R2", fk, "rotation: fee parameter and active", c.P.InstrPos(gen), a2.K == "param" && isConst(a3, "true"), "the new keyset takes the requested fee and is active", short(a2.String()+" / "+a3.String(), 120))
-			k := o.Of(gen.(ssa.Value))
-			kv := &Ex{K: "call", S: k.S, Args: k.Args, Call: k.Call, Idx: 0}
-			var save, deact ssa.CallInstruction
-			for _, ci := range Calls(rot) {
-				dd := c.P.Describe(ci)
-				if m, ok := c.V.IsDBCall(dd); ok {
-					if c.V.HasRole(m, "INSERT keysets") {
-						save = ci
-					}
-					if c.V.HasRole(m, "UPDATE keysets") {
-						deact = ci
-					}
-				}
-			}
-			if save == nil || deact == nil {
-				R.Check("R2", fk, "rotation persists both changes", c.P.Pos(rot.Pos()), false, "rotation marks the old keyset inactive and saves the new one", "storage calls not found")
-			} else {
-				okR, whyR := rowOK(o.Of(c.P.Describe(save).Args[0]), kv, seedOK)
-				R.Check("R2", fk, "rotation: persisted row = new keyset", c.P.InstrPos(save), okR, "the saved row carries the new keyset's own id, unit, index and fee", whyR)
-				dd := c.P.Describe(deact)
-				okD := o.Of(dd.Args[0]).String() == recv+"."+ak+".Id" && isConst(o.Of(dd.Args[1]), "false")
-				R.Check("R2", fk, "rotation: old keyset marked inactive", c.P.InstrPos(deact), okD, "the previously active keyset is marked inactive in storage", short(o.Of(dd.Args[0]).String(), 100))
-				// pointer moves only after the deactivation succeeded
-				deactOK := &Cond{Name: "old keyset marked inactive in storage", Match: func(ft *Fact, _ *Origins) bool {
-					return ft.Kind == "errnil" && ft.Pos && ft.A.K == "call" && ft.A.Call == deact
-				}}
-				for _, b := range rot.Blocks {
-					for _, in := range b.Instrs {
-						if st, ok := in.(*ssa.Store); ok {
-							if fa, ok := st.Addr.(*ssa.FieldAddr); ok && fieldName(fa) == ak {
-								ok2, why := o.Requires(st, deactOK)
-								R.Check("R2", fk, "active pointer moves <= old keyset inactive in storage", c.P.InstrPos(st), ok2, "the active pointer is switched only after storage recorded the deactivation", why)
-								R.Check("R2", fk, "active pointer = new keyset", c.P.InstrPos(st), o.Of(st.Val).String() == kv.String(), "the active pointer is set to the generated keyset", short(o.Of(st.Val).String(), 100))
-							}
-						}
-					}
-				}
-				saveOK := &Cond{Name: "new keyset row saved", Match: func(ft *Fact, _ *Origins) bool {
-					return ft.Kind == "errnil" && ft.Pos && ft.A.K == "call" && ft.A.Call == save
-				}}
-				for _, r := range o.SuccessReturns() {
-					ok2, why := o.Requires(r, saveOK)
-					R.Check("R2", fk, "success <= new keyset row saved", c.P.InstrPos(r), ok2, "rotation reports success only after the new keyset row was saved", why)
-				}
-			}
-		}
-	}
+	c.ruleKeysetWiring("R2")
 
 	// ---- R3
 	ak := c.activeKeysetField("R3")
@@ -427,4 +267,173 @@ func (c *Ctx) c09Constants() {
 		}
 	}
 	R.Check("R6", fk, "id derived from the complete public key map", c.P.InstrPos(pkUpd), okID, "the keyset id is computed after the loop from the map that received every key", "")
+}
+
+// ruleKeysetWiring: start-up and rotation wiring of the keyset generator and of the persisted rows
+// (C09.R2; shared with C07: "the keysets are unchanged after a restart" rests on the rows carrying the
+// generated keyset's own index and fee and on start-up regenerating every keyset from its own row).
+func (c *Ctx) ruleKeysetWiring(rule string) {
+	R := c.R
+	// ---- R2
+	load := c.fn(rule, "mint.LoadMint")
+	rot := c.fn(rule, "mint.(*Mint).RotateKeyset")
+	isMaster := func(e *Ex, seedOK func(*Ex) bool) bool {
+		return isCallSuffix(e, "hdkeychain.NewMaster") && e.Idx == 0 && seedOK(arg(e, 0))
+	}
+	rowOK := func(row *Ex, k *Ex, seedOK func(*Ex) bool) (bool, string) {
+		fs := fieldsOfWith(row)
+		want := map[string]string{"Id": k.String() + ".Id", "Unit": k.String() + ".Unit", "DerivationPathIdx": k.String() + ".DerivationPathIdx", "InputFeePpk": k.String() + ".InputFeePpk"}
+		for f, w := range want {
+			if fs[f] == nil || fs[f].String() != w {
+				got := "<missing>"
+				if fs[f] != nil {
+					got = short(fs[f].String(), 100)
+				}
+				return false, "persisted " + f + " is " + got + ", expected the generated keyset's " + f
+			}
+		}
+		if fs["Active"] == nil || !(isConst(fs["Active"], "true") || fs["Active"].String() == k.String()+".Active") {
+			return false, "persisted Active is not true / the keyset's flag"
+		}
+		if fs["Seed"] == nil || !isCall(fs["Seed"], fnHexEncode) || !seedOK(arg(fs["Seed"], 0)) {
+			return false, "persisted Seed is not the hex of the seed in use"
+		}
+		return true, ""
+	}
+	if load != nil {
+		fk := c.P.FuncKey(load)
+		o := c.P.OriginsOf(load)
+		seedOK := func(e *Ex) bool {
+			for _, a := range e.Alts() {
+				if !(isCallSuffix(a, "hdkeychain.GenerateSeed") || isCallSuffix(a, ".GetSeed")) {
+					return false
+				}
+			}
+			return true
+		}
+		nFirst, nReload := 0, 0
+		for _, ci := range Calls(load) {
+			d := c.P.Describe(ci)
+			if d.Name != fnGenKeyset {
+				continue
+			}
+			args := make([]*Ex, len(d.Args))
+			for i, a := range d.Args {
+				args[i] = o.Of(a)
+			}
+			pos := c.P.InstrPos(ci)
+			if !isMaster(args[0], seedOK) {
+				R.Check(rule, fk, "master key from the stored/generated seed", pos, false, "keys are derived from the master key of the seed", short(args[0].String(), 160))
+				continue
+			}
+			if isConst(args[1], "0") {
+				nFirst++
+				ok := isConst(args[3], "true") && strings.HasSuffix(args[2].String(), ".InputFeePpk") && args[2].K == "field" && paramRoot(args[2]) != ""
+				R.Check(rule, fk, "first start: GenerateKeyset(master, 0, configured fee, active)", pos, ok, "the first keyset uses index 0, the configured fee and is active", short(args[2].String()+" / "+args[3].String(), 160))
+				// generated seed saved before use
+				saved := &Cond{Name: "seed read from storage, or generated seed saved", Match: func(ft *Fact, _ *Origins) bool {
+					if ft.Kind != "errnil" || !ft.Pos || ft.A.K != "call" {
+						return false
+					}
+					return (strings.HasSuffix(ft.A.S, ".GetSeed") && ft.A.Idx == 1) || (strings.HasSuffix(ft.A.S, ".SaveSeed") && isCallSuffix(arg(ft.A, 1), "hdkeychain.GenerateSeed"))
+				}}
+				okS, why := o.Requires(ci, saved)
+				R.Check(rule, fk, "seed persisted before keys are derived from it", pos, okS, "a freshly generated seed is saved before any key is derived", why)
+				// persisted row
+				k := o.Of(ci.(ssa.Value))
+				kv := &Ex{K: "call", S: k.S, Args: k.Args, Call: k.Call, Idx: 0}
+				for _, sc := range Calls(load) {
+					sd := c.P.Describe(sc)
+					if strings.HasSuffix(sd.Name, ".SaveKeyset") {
+						okR, whyR := rowOK(o.Of(sd.Args[0]), kv, seedOK)
+						R.Check(rule, fk, "first start: persisted row = generated keyset", c.P.InstrPos(sc), okR, "the row saved for the first keyset carries the generated id, unit, index, fee and the seed", whyR)
+						for _, r := range o.SuccessReturns() {
+							_ = r
+						}
+					}
+				}
+				continue
+			}
+			nReload++
+			row := "elem("
+			ok := strings.HasPrefix(args[1].String(), row) && strings.HasSuffix(args[1].String(), ".DerivationPathIdx") &&
+				strings.HasSuffix(args[2].String(), ".InputFeePpk") && strings.HasSuffix(args[3].String(), ".Active")
+			// all three from the same stored row of the keyset read
+			base := strings.TrimSuffix(args[1].String(), ".DerivationPathIdx")
+			ok = ok && args[2].String() == base+".InputFeePpk" && args[3].String() == base+".Active" && strings.Contains(base, ".GetKeysets#0(")
+			R.Check(rule, fk, "reload: GenerateKeyset(master, row.index, row.fee, row.active)", pos, ok, "every stored keyset is regenerated from its own stored index, fee and active flag",
+				short(args[1].String()+" / "+args[2].String()+" / "+args[3].String(), 240))
+		}
+		if nFirst == 0 || nReload == 0 {
+			R.Check(rule, fk, "first-start and reload generation present", c.P.Pos(load.Pos()), false, "start-up generates the first keyset or regenerates the stored ones", fmt.Sprintf("first=%d reload=%d", nFirst, nReload))
+		}
+	}
+	if rot != nil {
+		fk := c.P.FuncKey(rot)
+		o := c.P.OriginsOf(rot)
+		ak := c.activeKeysetField(rule)
+		recv := coreRecv(rot)
+		seedOK := func(e *Ex) bool { return isCallSuffix(e, ".GetSeed") && e.Idx == 0 }
+		var gen ssa.CallInstruction
+		for _, ci := range Calls(rot) {
+			if c.P.Describe(ci).Name == fnGenKeyset {
+				gen = ci
+			}
+		}
+		if gen == nil {
+			R.Check(rule, fk, "rotation generates the next keyset", c.P.Pos(rot.Pos()), false, "rotation derives a new keyset", "no call of "+fnGenKeyset)
+		} else {
+			d := c.P.Describe(gen)
+			a0, a1, a2, a3 := o.Of(d.Args[0]), o.Of(d.Args[1]), o.Of(d.Args[2]), o.Of(d.Args[3])
+			okIdx := a1.String() == "("+recv+"."+ak+".DerivationPathIdx + #1)"
+			R.Check(rule, fk, "rotation: index = active index + 1", c.P.InstrPos(gen), okIdx && isMaster(a0, seedOK), "the new keyset uses the next derivation index under the stored seed's master key", short(a1.String(), 120))
+			R.Check(rule, fk, "rotation: fee parameter and active", c.P.InstrPos(gen), a2.K == "param" && isConst(a3, "true"), "the new keyset takes the requested fee and is active", short(a2.String()+" / "+a3.String(), 120))
+			k := o.Of(gen.(ssa.Value))
+			kv := &Ex{K: "call", S: k.S, Args: k.Args, Call: k.Call, Idx: 0}
+			var save, deact ssa.CallInstruction
+			for _, ci := range Calls(rot) {
+				dd := c.P.Describe(ci)
+				if m, ok := c.V.IsDBCall(dd); ok {
+					if c.V.HasRole(m, "INSERT keysets") {
+						save = ci
+					}
+					if c.V.HasRole(m, "UPDATE keysets") {
+						deact = ci
+					}
+				}
+			}
+			if save == nil || deact == nil {
+				R.Check(rule, fk, "rotation persists both changes", c.P.Pos(rot.Pos()), false, "rotation marks the old keyset inactive and saves the new one", "storage calls not found")
+			} else {
+				okR, whyR := rowOK(o.Of(c.P.Describe(save).Args[0]), kv, seedOK)
+				R.Check(rule, fk, "rotation: persisted row = new keyset", c.P.InstrPos(save), okR, "the saved row carries the new keyset's own id, unit, index and fee", whyR)
+				dd := c.P.Describe(deact)
+				okD := o.Of(dd.Args[0]).String() == recv+"."+ak+".Id" && isConst(o.Of(dd.Args[1]), "false")
+				R.Check(rule, fk, "rotation: old keyset marked inactive", c.P.InstrPos(deact), okD, "the previously active keyset is marked inactive in storage", short(o.Of(dd.Args[0]).String(), 100))
+				// pointer moves only after the deactivation succeeded
+				deactOK := &Cond{Name: "old keyset marked inactive in storage", Match: func(ft *Fact, _ *Origins) bool {
+					return ft.Kind == "errnil" && ft.Pos && ft.A.K == "call" && ft.A.Call == deact
+				}}
+				for _, b := range rot.Blocks {
+					for _, in := range b.Instrs {
+						if st, ok := in.(*ssa.Store); ok {
+							if fa, ok := st.Addr.(*ssa.FieldAddr); ok && fieldName(fa) == ak {
+								ok2, why := o.Requires(st, deactOK)
+								R.Check(rule, fk, "active pointer moves <= old keyset inactive in storage", c.P.InstrPos(st), ok2, "the active pointer is switched only after storage recorded the deactivation", why)
+								R.Check(rule, fk, "active pointer = new keyset", c.P.InstrPos(st), o.Of(st.Val).String() == kv.String(), "the active pointer is set to the generated keyset", short(o.Of(st.Val).String(), 100))
+							}
+						}
+					}
+				}
+				saveOK := &Cond{Name: "new keyset row saved", Match: func(ft *Fact, _ *Origins) bool {
+					return ft.Kind == "errnil" && ft.Pos && ft.A.K == "call" && ft.A.Call == save
+				}}
+				for _, r := range o.SuccessReturns() {
+					ok2, why := o.Requires(r, saveOK)
+					R.Check(rule, fk, "success <= new keyset row saved", c.P.InstrPos(r), ok2, "rotation reports success only after the new keyset row was saved", why)
+				}
+			}
+		}
+	}
+
 }
